@@ -6,6 +6,7 @@ std::string handle(const std::string& op, const Args& a) {
     if (op != "slice") return "unknown-op";
     auto enc = get(a, "enc"); auto level = get(a, "level");
     auto src = nats(a, "shape"); auto es = parse_slices(get(a, "sl"));
+    uvec at_v; if (has(a, "at")) { at_v = nats(a, "at"); at_arg() = &at_v; } else at_arg() = nullptr;
     if (enc == "dynA") return run_dynA(level, src, es);
     if (enc != "dynP") return "bad-args";
     // the None-pattern of the request = pattern of its first range entry that is not all-int (default: all-int tuple)
